@@ -267,8 +267,7 @@ class CasXmiDeserializer:
                         targets = []
                         for ref in value.split():
                             target_id = int(ref)
-                            target = feature_structures[target_id]
-                            targets.append(target)
+                            targets.append(feature_structures[target_id] if target_id != 0 else None)
 
                         if feature.rangeType.name == TYPE_NAME_FS_ARRAY:
                             # Wrap inline array into the appropriate array object
@@ -431,7 +430,7 @@ class CasXmiDeserializer:
         for e in reversed(elements):
             tail = head
             head = NonEmptyFSList()
-            head.set(FEATURE_BASE_NAME_HEAD, feature_structures[int(e)])
+            head.set(FEATURE_BASE_NAME_HEAD, feature_structures[int(e)] if int(e) != 0 else None)
             head.set(FEATURE_BASE_NAME_TAIL, tail)
         return head
 
@@ -598,8 +597,7 @@ class CasXmiSerializer:
                     child = etree.SubElement(elem, "elements")
                     child.text = e
             elif fs.type.name == "uima.cas.FSArray":
-                elements = " ".join(str(e.xmiID) for e in fs.elements)
-                elem.attrib["elements"] = elements
+                elem.attrib["elements"] = " ".join(self._serialize_ref(e) for e in fs.elements)
             else:
                 elem.attrib["elements"] = self._serialize_primitive_array(fs.type.name, fs.elements)
             return
@@ -649,11 +647,11 @@ class CasXmiSerializer:
                     elem.attrib[feature_name] = self._serialize_primitive_list(feature.rangeType.name, value)
             elif feature.rangeType.name == TYPE_NAME_FS_ARRAY and not feature.multipleReferencesAllowed:
                 if value.elements is not None:  # Compare to none to not skip if elements is empty!
-                    elem.attrib[feature_name] = " ".join(str(e.xmiID) for e in value.elements)
+                    elem.attrib[feature_name] = " ".join(self._serialize_ref(e) for e in value.elements)
             elif feature.rangeType.name == TYPE_NAME_FS_LIST and not feature.multipleReferencesAllowed:
                 if value is not None:  # Compare to none to not skip if elements is empty!
                     elem.attrib[feature_name] = " ".join(
-                        str(e.xmiID) for e in self._collect_list_elements(feature.rangeType.name, value)
+                        self._serialize_ref(e) for e in self._collect_list_elements(feature.rangeType.name, value)
                     )
             elif feature_name == FEATURE_BASE_NAME_SOFA:
                 elem.attrib[feature_name] = str(value.xmiID)
@@ -666,6 +664,10 @@ class CasXmiSerializer:
             else:
                 # We need to encode non-primitive features as a reference
                 elem.attrib[feature_name] = str(value.xmiID)
+
+    def _serialize_ref(self, fs) -> str:
+        # A missing element of an array or list is written as a reference to cas:NULL
+        return "0" if fs is None else str(fs.xmiID)
 
     def _serialize_sofa(self, root: etree.Element, sofa: Sofa):
         name = etree.QName(self._nsmap["cas"], "Sofa")
